@@ -57,6 +57,9 @@ def run(ctx):
     unit_ranges(ctx, fx)
 
 
+FOUND = {}
+
+
 def ceil_blocks(ctx, fx):
     ctx.rule("C13.block.boundary-identity",
              "block division: per = ceil-div(size, parts) [max(., 1) allowed]; lower = min(per * id, size); upper = "
@@ -73,22 +76,80 @@ def ceil_blocks(ctx, fx):
             fn = ctx.fn(f)
             li = local_inits(fn)
             det = []
-            def one(n):
-                v = li.get(n, [])
-                return S(v[0]) if len(v) == 1 else None
-            sp, sl, sh = one(per), one(lo), one(hi)
-            # the size variable may be a plain copy of another object (size = numEdges): both spellings are the same clamp
-            sz_alias = one(size)
-            if sz_alias and re.fullmatch(r"[\w>\-\.]+", sz_alias):
-                sl = sl.replace(sz_alias, size) if sl else sl
-                sh = sh.replace(sz_alias, size) if sh else sh
-                sp = sp.replace(sz_alias, size) if sp else sp
-            if sp is None or not is_ceildiv(sp, size, parts):
-                det.append("%s = %s is not ceil(%s / %s)" % (per, sp, size, parts))
-            if sl is None or not re.fullmatch(r"min\(\(%s \* %s\),%s\)" % (re.escape(per), re.escape(idv), re.escape(size)), sl or ""):
-                det.append("lower bound %s = %s is not min(%s * %s, %s)" % (lo, sl, per, idv, size))
-            if sl is None or sh is None or subst(sl, idv, "(%s + 1)" % idv) != sh:
-                det.append("upper bound %s = %s is not the lower bound with %s advanced by one" % (hi, sh, idv))
+            # Locals are found by shape, not by name; expressions are compared as polynomials, so commuted operands and
+            # renamed locals are the same thing. Parameters `id` / parts are API names and come from the table.
+            alias = {}
+            for n, v in li.items():
+                if len(v) == 1 and isinstance(v[0], dict):
+                    t = v[0]
+                    while t.get("k") == "cast":
+                        t = t["e"]
+                    if t.get("k") in ("ref", "mem"):
+                        alias[n] = S(t)          # size = numEdges: a plain copy
+
+            def poly(t):
+                if not isinstance(t, dict):
+                    return None
+                k = t.get("k")
+                if k == "int":
+                    return Poly.const(t["v"])
+                if k == "cast":
+                    return poly(t["e"])
+                if k in ("ref", "mem"):
+                    n = S(t)
+                    return Poly.sym(alias.get(n, n))
+                if k == "bin" and t["op"] in ("+", "-", "*"):
+                    x, y = poly(t["l"]), poly(t["r"])
+                    if x is None or y is None:
+                        return None
+                    return x + y if t["op"] == "+" else x - y if t["op"] == "-" else x * y
+                return None
+
+            def strip(t):
+                while isinstance(t, dict) and t.get("k") in ("cast",):
+                    t = t["e"]
+                return t
+            mins, ceil = {}, {}
+            for n, v in li.items():
+                if len(v) != 1:
+                    continue
+                t = strip(v[0])
+                if isinstance(t, dict) and t.get("k") == "call" and t.get("name") == "min" and len(t.get("a", [])) == 2:
+                    ps = [poly(x) for x in t["a"]]
+                    if None not in ps:
+                        mins[n] = ps
+                inner = t
+                if isinstance(t, dict) and t.get("k") == "call" and t.get("name") == "max" and len(t.get("a", [])) == 2:
+                    others = [x for x in t["a"] if poly(x) != Poly.const(1)]
+                    if len(others) == 1:
+                        inner = strip(others[0])
+                if isinstance(inner, dict) and inner.get("k") == "bin" and inner.get("op") == "/":
+                    num, den = poly(inner["l"]), poly(inner["r"])
+                    if num is not None and den is not None:
+                        ceil[n] = (num, den)
+            pid = Poly.sym(idv)
+            pparts = Poly.sym(parts)
+            pers = [n for n, (num, den) in ceil.items() if den == pparts and (num - den + Poly.const(1)).t and
+                    len((num - den + Poly.const(1)).t) == 1 and list((num - den + Poly.const(1)).t.values()) == [1]]
+            if len(pers) != 1:
+                det.append("no piece size of the form ceil(size / %s) (candidates %s)" % (parts, sorted(ceil)))
+            elif len(mins) != 2:
+                det.append("expected two clamped bounds min(., size), found %s" % sorted(mins))
+            else:
+                pn = pers[0]
+                pper = Poly.sym(pn)
+                psize = ceil[pn][0] - pparts + Poly.const(1)       # the dividend of the ceil-div is the size
+                lows = [n for n, ps in mins.items() if pper * pid in ps]
+                ups = [n for n, ps in mins.items() if pper * pid + pper in ps]
+                if len(lows) != 1 or len(ups) != 1 or lows == ups:
+                    det.append("bounds %s are not min(%s * %s, size) and min(%s * (%s + 1), size)" % (
+                        {n: [repr(x) for x in ps] for n, ps in mins.items()}, pn, idv, pn, idv))
+                else:
+                    FOUND[f["key"]] = (lows[0], ups[0], repr(psize))
+                    for n in (lows[0], ups[0]):
+                        other = [x for x in mins[n] if x not in (pper * pid, pper * pid + pper)]
+                        if other != [psize]:
+                            det.append("%s is clamped by %s, the divided size is %s" % (n, [repr(x) for x in other], psize))
             ctx.ob("C13.block.boundary-identity", qn, not det, "; ".join(det), fn.loc(), "bounds/%s" % (f["params"][0]["ty"][:20]),
                    fnkey=f["key"])
     # block_range: the returned pair is (b + A, b + A + (B - A)) / e kept when B == dist
@@ -98,18 +159,18 @@ def ceil_blocks(ctx, fx):
         adv = [e for _, e in fn.events(lambda e: (e.get("k") == "call" and e.get("name") == "advance") or
                                         (e.get("k") == "assign" and e.get("op") == "+=" and e.get("lp") in ("b", "e")))]
         txt = [S(e) if e["k"] == "call" else "%s += %s" % (e["lp"], e.get("rp")) for e in adv]
-        want1 = {"advance(b,A)", "advance(e,(B - A))"}
-        want2 = {"b += A", "e += (B - A)"}
-        if set(txt) != want1 and set(t.replace("(B - A)", "(B - A)") for t in txt) != want2 and \
-                set(txt) != {"b += A", "e += B - A"}:
-            det.append("range is not [b + A, b + A + (B - A)): %s" % txt)
+        A, B, SZ = FOUND.get(f["key"], ("A", "B", "dist"))
+        want1 = {"advance(b,%s)" % A, "advance(e,(%s - %s))" % (B, A)}
+        want2 = {"b += %s" % A, "e += (%s - %s)" % (B, A)}
+        if set(txt) != want1 and set(txt) != want2 and set(txt) != {"b += %s" % A, "e += %s - %s" % (B, A)}:
+            det.append("range is not [b + %s, b + %s + (%s - %s)): %s" % (A, A, B, A, txt))
         # e restarts from b on the path where the block does not reach the end
         eb = [e for _, e in fn.events(lambda e: (e.get("k") == "assign" and e.get("lp") == "e" and e.get("rp") == "b") or
                                        (e.get("k") == "call" and e.get("op") == "=" and S(e.get("recv")) == "e" and [S(a) for a in e.get("a", [])] == ["b"]))]
         if len(eb) != 1:
             det.append("upper iterator does not restart from the advanced lower iterator")
         cond = [S(fn.branch(b)[0]) for b in fn.blocks if fn.branch(b)]
-        if "(dist != B)" not in cond and "(B != dist)" not in cond:
+        if "(%s != %s)" % (SZ, B) not in cond and "(%s != %s)" % (B, SZ) not in cond:
             det.append("no test whether the block reaches the end: %s" % cond)
         ctx.ob("C13.block.boundary-identity", "galois::block_range", not det, "; ".join(det), fn.loc(), "pair/%s" % (f["params"][0]["ty"][:20]),
                fnkey=f["key"])
